@@ -36,6 +36,7 @@ func TestMain(m *testing.M) {
 	vk.MainStandalone(m, "C40", map[string]func(t *vk.STB){
 		"TestPairMatrix": pairMatrix,
 		"TestMixes":      mixes,
+		"TestStateMix":   stateMix,
 	})
 }
 
